@@ -2,6 +2,7 @@
    Statements are pinned by coq/statements/C11.json; ./check compares. *)
 From Coq Require Import Bool List NArith ZArith Lia.
 From M Require RegProofs.
+From M Require Tie.
 From M Require RegModel.
 Import ListNotations.
 
@@ -13,4 +14,21 @@ Theorem C11_stb_coherent :
 Proof. exact (@RegProofs.stb_coherent). Qed.
 End T_stb_coherent.
 Definition C11_stb_coherent := @T_stb_coherent.C11_stb_coherent.
+
+Module T_tie_reg_tables. Import Tie. Local Open Scope bool_scope. Local Open Scope Z_scope.
+Local Open Scope Z_scope.
+Theorem C11_tie_reg_tables :
+  Generated.gen_reg_count = Z.of_nat (length regs_in_order) /\
+  map (fun i => details_from_tables i) (seq 0 (length regs_in_order)) = map (fun r => Some (RegModel.details r)) regs_in_order.
+Proof. exact (@Tie.tie_reg_tables). Qed.
+End T_tie_reg_tables.
+Definition C11_tie_reg_tables := @T_tie_reg_tables.C11_tie_reg_tables.
+
+Module T_tie_stb_bits. Import Tie. Local Open Scope bool_scope. Local Open Scope Z_scope.
+Local Open Scope Z_scope.
+Theorem C11_tie_stb_bits :
+  Generated.gen_stb_bits = [RegModel.SRQ; RegModel.QMA; 32; 128; 8]%N /\ Generated.gen_reg_val_bits = 16.
+Proof. exact (@Tie.tie_stb_bits). Qed.
+End T_tie_stb_bits.
+Definition C11_tie_stb_bits := @T_tie_stb_bits.C11_tie_stb_bits.
 
